@@ -15,7 +15,8 @@ REQUIRED = [
     "phase_table_correct", "conj_tables_as_expected",
     # general (all n)
     "pauli_mul_act", "commute_dichotomy", "multiply_row_spec", "multiply_row_panics_iff_anticommute",
-    "multiply_row_no_assert_of_stabilizes", "row_ops_preserve_group",
+    "multiply_row_no_assert_of_stabilizes", "row_ops_preserve_group", "normalize_sound",
+    "bits_get_set", "bits_sign_get_set",
     # finite, kernel-checked (n <= 2)
     "enum_card", "enum_is_closure", "exhaustive_gates_n2", "exhaustive_measure_n2", "exhaustive_reset_partial_n2",
     "exhaustive_canonical_n2", "equal_states_identical_tableau_n2", "history_independent_n2",
